@@ -9,11 +9,11 @@ import Imeta.Model.Xmp
 namespace Imeta.Props.C13
 open Imeta Imeta.Xmp
 
-theorem bind_ok' {α β} (m : M α) (f : α → M β) (st st' : St) (a : α) (h : m st = (.ok a, st')) : (m >>= f) st = f a st' := by
+theorem bindOk {α β} (m : M α) (f : α → M β) (st st' : St) (a : α) (h : m st = (.ok a, st')) : (m >>= f) st = f a st' := by
   show (match m st with | (.ok a, st') => f a st' | (.error e, st') => (.error e, st')) = _
   rw [h]
 
-theorem bind_err' {α β} (m : M α) (f : α → M β) (st st' : St) (e : XErr) (h : m st = (.error e, st')) : (m >>= f) st = (.error e, st') := by
+theorem bindErr {α β} (m : M α) (f : α → M β) (st st' : St) (e : XErr) (h : m st = (.error e, st')) : (m >>= f) st = (.error e, st') := by
   show (match m st with | (.ok a, st') => f a st' | (.error e, st') => (.error e, st')) = _
   rw [h]
 
@@ -37,10 +37,10 @@ theorem attr_value_exact (tag : Tag) (f sz : Nat) (st : St) (v t' : Bytes) (q c1
     (hbuf : peek sz st = (.ok ([61, q] ++ v ++ [q, c1, c2] ++ t'), st)) (h62 : c1 ≠ 62) (h47 : c1 ≠ 47) :
     readAttrValue tag (f + 1) sz st = (.ok (v, tag), { st with rest := st.rest.drop (v.length + 3) }) := by
   unfold readAttrValue
-  rw [bind_ok' _ _ _ _ _ hbuf]
+  rw [bindOk _ _ _ _ _ hbuf]
   have h0 : ([61, q] ++ v ++ [q, c1, c2] ++ t' : Bytes)[0]? = some 61 := by simp
   have h1 : ([61, q] ++ v ++ [q, c1, c2] ++ t' : Bytes)[1]? = some q := by simp
-  rw [bind_ok' _ _ _ _ _ (at_ok _ 0 61 st h0), bind_ok' _ _ _ _ _ (at_ok _ 1 q st h1)]
+  rw [bindOk _ _ _ _ _ (at_ok _ 0 61 st h0), bindOk _ _ _ _ _ (at_ok _ 1 q st h1)]
   have hcond : ((61 : UInt8) == 61 && (q == 34 || q == 39)) = true := by rcases hq with h | h <;> subst h <;> decide
   rw [if_pos hcond]
   have hk : (List.drop 2 ([61, q] ++ v ++ [q, c1, c2] ++ t' : Bytes)).findIdx (fun x => x == q) = v.length := by
@@ -56,7 +56,7 @@ theorem attr_value_exact (tag : Tag) (f sz : Nat) (st : St) (v t' : Bytes) (q c1
     simp
     have : 2 + v.length - (v.length + 2) = 0 := by omega
     rw [this]; rfl
-  rw [bind_ok' _ _ _ _ _ (at_ok _ _ c1 st hc1)]
+  rw [bindOk _ _ _ _ _ (at_ok _ _ c1 st hc1)]
   have n62 : (c1 == 62) = false := by simpa using h62
   have n47 : (c1 == 47) = false := by simpa using h47
   simp only [n62, n47, Bool.false_eq_true, if_false]
@@ -79,7 +79,7 @@ theorem attr_value_retry (tag : Tag) (f sz : Nat) (st : St) (buf : Bytes) (b0 b1
     (hmiss : ¬ (b0 == 61 && (b1 == 34 || b1 == 39)) = true ∨ ¬ (2 + (buf.drop 2).findIdx (fun x => x == b1) + 2 < buf.length)) :
     readAttrValue tag (f + 1) sz st = readAttrValue tag f (sz + 512) st := by
   conv => lhs; unfold readAttrValue
-  rw [bind_ok' _ _ _ _ _ hbuf, bind_ok' _ _ _ _ _ (at_ok _ 0 b0 st h0), bind_ok' _ _ _ _ _ (at_ok _ 1 b1 st h1)]
+  rw [bindOk _ _ _ _ _ hbuf, bindOk _ _ _ _ _ (at_ok _ 0 b0 st h0), bindOk _ _ _ _ _ (at_ok _ 1 b1 st h1)]
   rcases hmiss with h | h
   · rw [if_neg h]
   · by_cases hc : (b0 == 61 && (b1 == 34 || b1 == 39)) = true
@@ -91,7 +91,7 @@ theorem attr_value_window_exceeded (tag : Tag) (f sz : Nat) (st : St) (h : sz > 
     (readAttrValue tag (f + 1) sz st).1 = Except.error XErr.bufferFull := by
   unfold readAttrValue
   have : peek sz st = (Except.error XErr.bufferFull, st) := by unfold peek; rw [if_pos h]
-  rw [bind_err' _ _ _ _ _ this]
+  rw [bindErr _ _ _ _ _ this]
 
 /-- **Element form, one look-ahead window.** If the window holds a value v without '<' that does not start with white
 space, '>' or '/', followed by '<', the reader returns exactly v and consumes exactly v. -/
@@ -100,7 +100,7 @@ theorem elem_value_exact (f sz : Nat) (st : St) (v t' : Bytes) (c : UInt8) (v' :
     (hbuf : peek sz st = (.ok (v ++ [60] ++ t'), st)) :
     readTagValue (f + 1) sz 0 0 st = (.ok v, { st with rest := st.rest.drop v.length }) := by
   unfold readTagValue
-  rw [bind_ok' _ _ _ _ _ hbuf]
+  rw [bindOk _ _ _ _ _ hbuf]
   simp only [beq_self_eq_true, if_true]
   have h0 : (v ++ [60] ++ t' : Bytes)[0]? = some c := by subst hvc; simp
   have n62 : (c == 62) = false := by simpa using h62
@@ -115,10 +115,10 @@ theorem elem_value_exact (f sz : Nat) (st : St) (v t' : Bytes) (c : UInt8) (v' :
     rw [findIdx_skip _ _ _ hlt]
     simp [List.findIdx_cons]
   have hl : v.length < (v ++ [60] ++ t' : Bytes).length := by simp
-  refine (bind_ok' _ _ st st (0, 0) ?_).trans ?_
-  · rw [bind_ok' _ _ _ _ _ (at_ok _ 0 c st h0)]
+  refine (bindOk _ _ st st (0, 0) ?_).trans ?_
+  · rw [bindOk _ _ _ _ _ (at_ok _ 0 c st h0)]
     simp only [n62, n47, Bool.false_eq_true, if_false]
-    refine (bind_ok' _ _ st st 0 rfl).trans ?_
+    refine (bindOk _ _ st st 0 rfl).trans ?_
     simp only [hws]
     rfl
   · simp only [hk]
